@@ -136,6 +136,23 @@ def register(reg, P):
                 tier = "quick" if fn_name == "softmax" and (ax, ia) in ((-1, (None, 0)), (0, (None, 0)), (-1, (0, None)), (1, (1, 0)), (-2, (None, 2))) else "thorough"
                 reg("A7", f"vmap_masked_{fn_name}/ax{ax}_in{ia[0]}_{ia[1]}", functools.partial(P, jax.vmap(msm, in_axes=ia), [(shapes[0], F32), (shapes[1], BOOL)]), tier=tier)
 
+    # multi-operand substitutes with exactly ONE operand mapped (the others shared), at a non-leading axis
+    one_mapped = {
+        "where_cond": (lambda c, a, b: jnp.where(c, a, b * 2.0), [((2, 3), BOOL), ((2, 3), F32), ((2, 3), F32)]),
+        "clip_bounds": (lambda x, lo, hi: jnp.clip(x, lo, hi), [((2, 3), F32), ((2, 3), F32), ((2, 3), F32)]),
+        "concat_ax1": (lambda a, b, c: jnp.concatenate([a, b, c], axis=1), [((2, 3), F32), ((2, 3), F32), ((2, 3), F32)]),
+        "stack_ax-1": (lambda a, b, c: jnp.stack([a, b, c], axis=-1), [((2, 3), F32), ((2, 3), F32), ((2, 3), F32)]),
+        "select_case": (lambda a, b, c: jnp.select([a > 0.0, b > 0.0], [a, b], default=c), [((2, 3), F32), ((2, 3), F32), ((2, 3), F32)]),
+    }
+    for nm, (f, sp) in one_mapped.items():
+        f = late(f)
+        for k in range(3):
+            for bax in (0, 1, 2):
+                ia = tuple(bax if j == k else None for j in range(3))
+                shp = list(sp[k][0]); shp.insert(bax, 2)
+                specs = [(tuple(shp), sp[j][1]) if j == k else sp[j] for j in range(3)]
+                reg("A7", f"vmap_one_mapped/{nm}/op{k}_ax{bax}", functools.partial(P, jax.vmap(f, in_axes=ia), specs), tier="quick" if (k, bax) in ((0, 1), (2, 2)) else "thorough")
+
     # custom_jvp / custom_vjp
     @jax.custom_jvp
     def cj(x):
